@@ -61,7 +61,15 @@ class LNarrow(LBase):
     only: LLeaf
 
 
-LCLASSES: dict[str, type] = {c.__name__: c for c in (LBase, LLeaf, LSub, LTup, LList, LOpt, LReq, LMix, LNarrow)}
+@dataclass
+class LFalsy(LLeaf):
+    """A leaf that is falsy in a boolean context (e.g. an empty container node)."""
+
+    def __bool__(self) -> bool:
+        return False
+
+
+LCLASSES: dict[str, type] = {c.__name__: c for c in (LBase, LLeaf, LSub, LTup, LList, LOpt, LReq, LMix, LNarrow, LFalsy)}
 
 
 def _is_recipe(val: Any) -> bool:
